@@ -11,7 +11,7 @@ VARIABLES l, bad, dec
 Kinds == <<"c", "c89", "c99">>
 One(it, t, env, edge) ==
     IF it.bexc # "" THEN "unk"
-    ELSE LET val == Val(t, env)
+    ELSE LET val == Val(IF it.e.k = "Null" THEN t ELSE it.e, env)     \* the value of the constructed object (C07/C08 decide whether construction kept the recipe's value)
              exact == val.t = "num" /\ ExactRat(val) /\ IAbs(val.re[1]) < 32768 /\ val.re[2] < 32768
              want == RatDbl(val.re)
              bads == {k \in 1..3 : it[Kinds[k]].exc = "does-not-compile"}
